@@ -383,14 +383,18 @@ def pretty_bounded(tier, seed):
             try:
                 c = Config()
                 c.every_pel = True
-                err = io.StringIO()
-                with contextlib.redirect_stderr(err), contextlib.redirect_stdout(err):
-                    return _pt.parsePEL(DataStream(data, byte_order='big', is_signed=False), c, False)[1]
+                err, out_ = io.StringIO(), io.StringIO()
+                with contextlib.redirect_stderr(err), contextlib.redirect_stdout(out_):
+                    text = _pt.parsePEL(DataStream(data, byte_order='big', is_signed=False), c, False)[1]
+                # whatever a decoder prints on stdout ends up in front of the document the command line prints
+                return text if identity else out_.getvalue() + text
             finally:
                 _pt.prettyPrint = saved
         for _ in range(300 if tier == 'quick' else 3000):
             doc = {rstr() or "k": rval(1) for _k in range(rng.randrange(1, 3))}
             pay = json.dumps(doc, ensure_ascii=bool(rng.randrange(2))).encode() + b'\0' * rng.randrange(0, 3)
+            if rng.random() < 0.2:
+                pay = pay[:rng.randrange(1, len(pay))] if len(pay) > 1 else b'{'       # JSON user data that is not valid JSON
             txt = ''.join(rng.choice(atoms + ['line', '\n']) for _k in range(rng.randrange(0, 8))).encode('utf-8', 'replace')
             secs = [pelgen.hdr(b'UD', 8 + len(pay), sub=1, comp=0x2000) + pay]
             if txt.strip():
